@@ -466,6 +466,44 @@ def cards_group(g):
             g.emit("size %s" % y)
 
 
+def sparse_group(g):
+    """three or more operands holding ARRAY chunks of a few hundred to ~1500 values at the same keys, whose union stays
+    at or below 4096 (or just crosses it): the in-place lazy union of the 3rd, 4th … operand decides array / bitmap by
+    the SUM of the cardinalities, the repair step must bring the chunk back to its canonical kind"""
+    r = g.r
+    tag = "g%d_" % g.fresh_group()
+    g.emit("# group agg sparse")
+    g.count("group:sparse")
+    keys = sorted(r.sample(range(0, 65536), r.choice([1, 2, 3])))
+    n = r.choice([3, 3, 4, 5])
+    target = r.choice([1500, 3000, 4000, 4096, 4097, 4300])      # size of the union in the first key
+    universe = sorted(r.sample(range(CH), target))
+    names = []
+    for i in range(n):
+        slots = []
+        for j, k in enumerate(keys):
+            if j == 0:
+                vs = sorted(set(universe[i::n]) | set(r.sample(universe, min(len(universe), r.choice([0, 50, 400])))))
+            else:
+                vs = sorted(r.sample(range(CH), r.choice([300, 600, 1100])))
+            vs = vs[:4096]
+            slots.append("%d:A:%s" % (k, ",".join(map(str, vs))))
+        a = g.fresh(tag)
+        g.emit("mkrepr %s cow=%d;%s" % (a, r.randrange(2) if r.random() < 0.3 else 0, ";".join(slots)))
+        names.append(a)
+    for fn in SEQ + PAR:
+        for _ in range(2):
+            r.shuffle(names)
+            y = g.fresh(tag + "y")
+            if fn in PAR:
+                g.emit("%s %s %d %s" % (fn, y, r.choice(WORKERS), " ".join(names)))
+            else:
+                g.emit("%s %s %s" % (fn, y, " ".join(names)))
+            g.emit("wf %s" % y)
+            g.emit("size %s" % y)
+            g.count("fn:" + fn)
+
+
 def _fresh_group(self):
     self._grp = getattr(self, "_grp", 0) + 1
     return self._grp
@@ -483,6 +521,8 @@ def _agg(g, scale):
         elif i % 5 == 4:
             cards_group(g)
             cards_group(g)
+            if i % 10 == 4:
+                sparse_group(g)
         else:
             agg_group(g, "top100" if i % 9 == 4 else None)
     # fixed corner cases, cheap and always present
